@@ -373,35 +373,81 @@ example : Alternating false [.req .stop, .req (.shutdown (.once .interrupt)), .r
       [.req .stop, .req (.shutdown (.once .interrupt)), .req .cont, .time 10, .req .stop, .req (.shutdown .twice), .req .cont]).2
       = [.kill .tstp, .ack, .kill .int, .kill .cont, .kill .tstp, .ack, .kill .kill, .kill .cont] := ⟨by simp [Alternating], by decide⟩
 
-/-! ## The model's clauses for a unit under termination are the source's -/
+/-! ## The model's clauses for a unit under termination and between attempts are the source's -/
 
 /-- **the Continue arm of `terminate_child`, statement by statement as read from unix.rs on this run, is the model's clause**:
     each of the three clocks is resumed if (and only if) it is paused, and SIGCONT goes to the process group *unconditionally* —
     also when termination began while the unit was stopped and only the unit's own stopwatch is paused -/
 theorem terminate_child_continue_arm_is_the_models (c : Cfg) (u : U) (w : Why) (hp : u.phase = .terminating w) :
-    interpArm Gen.terminateChildContinueArm u = onReq c u .cont := by
+    interpArm applyTerm guardTerm Gen.terminateChildContinueArm u = onReq c u .cont := by
   simp only [onReq, hp]
-  simp only [interpArm, Gen.terminateChildContinueArm, List.foldl, guardHolds, applyAction]
+  unfold Gen.terminateChildContinueArm
+  simp only [interpArm, List.foldl]
+  simp only [guardTerm, applyTerm]
   obtain ⟨ph, sw, is_, gs, ws, ds, ls, lsp, hits, slow, to, lk⟩ := u
   obtain ⟨swa, swp⟩ := sw
   obtain ⟨gsr, gsp⟩ := gs
   obtain ⟨wsa, wsp⟩ := ws
-  cases swp <;> cases gsp <;> cases wsp <;> simp <;> exact hp
+  cases swp <;> cases gsp <;> cases wsp <;> simp (config := { decide := true }) <;> exact hp
 
-/-- … and so is the Stop arm (nothing paused: the dispatcher debounces Stop, `stop_continue_alternate`): the three clocks are
+/-- … so is the Stop arm (nothing paused: the dispatcher debounces Stop, `stop_continue_alternate`): the three clocks are
     paused, SIGTSTP goes to the group, the Stop is acknowledged -/
 theorem terminate_child_stop_arm_is_the_models (c : Cfg) (u : U) (w : Why) (hp : u.phase = .terminating w)
     (hn : u.sw.paused = false ∧ u.gs.paused = false ∧ u.ws.paused = false) :
-    interpArm Gen.terminateChildStopArm u = onReq c u .stop := by
+    interpArm applyTerm guardTerm Gen.terminateChildStopArm u = onReq c u .stop := by
   simp only [onReq, hp]
-  simp only [interpArm, Gen.terminateChildStopArm, List.foldl, guardHolds, applyAction]
+  unfold Gen.terminateChildStopArm
+  simp only [interpArm, List.foldl]
+  simp only [guardTerm, applyTerm]
   obtain ⟨ph, sw, is_, gs, ws, ds, ls, lsp, hits, slow, to, lk⟩ := u
   obtain ⟨swa, swp⟩ := sw
   obtain ⟨gsr, gsp⟩ := gs
   obtain ⟨wsa, wsp⟩ := ws
   simp only at hn
   obtain ⟨rfl, rfl, rfl⟩ := hn
-  simp
+  simp (config := { decide := true })
   exact hp
+
+/-- … and the Shutdown arm: the whole group is killed at once and `terminate_child` returns -/
+theorem terminate_child_shutdown_arm_is_the_models (c : Cfg) (u : U) (w : Why) (hp : u.phase = .terminating w) (sr : ShutReq) :
+    interpArm applyTerm guardTerm Gen.terminateChildShutdownArm u = onReq c u (.shutdown sr) := by
+  simp only [onReq, hp]
+  unfold Gen.terminateChildShutdownArm
+  simp only [interpArm, List.foldl]
+  simp only [guardTerm, applyTerm]
+  simp (config := { decide := true })
+
+/-- **the Stop and Continue arms of `handle_delay_between_attempts`, as read from executor.rs on this run, are the model's clauses
+    for a unit between attempts**: Stop pauses the delay and its stopwatch and is acknowledged; Continue resumes both when the
+    delay is paused and does nothing otherwise; an information request is answered with the delay phase.  (The arms that end
+    the delay are C10's `delay_ending_arms_are_the_models`.) -/
+theorem delay_stop_continue_arms_are_the_models (c : Cfg) (u : U) (hp : u.phase = .delay) :
+    (u.ds.paused = false → u.ws.paused = false → interpArm applyDelay guardDelay Gen.delayStopArm u = onReq c u .stop) ∧
+    (u.ds.paused = u.ws.paused → interpArm applyDelay guardDelay Gen.delayContinueArm u = onReq c u .cont) ∧
+    interpArm applyDelay guardDelay Gen.delayGetInfoArm u = onReq c u .getInfo := by
+  obtain ⟨ph, sw, is_, gs, ws, ds, ls, lsp, hits, slow, to, lk⟩ := u
+  obtain ⟨dsr, dsp⟩ := ds
+  obtain ⟨wsa, wsp⟩ := ws
+  simp only at hp
+  subst hp
+  refine ⟨?_, ?_, ?_⟩
+  · intro h1 h2
+    simp only at h1 h2
+    subst h1 h2
+    unfold Gen.delayStopArm
+    simp only [onReq, interpArm, List.foldl]
+    simp only [guardDelay, applyDelay]
+    simp (config := { decide := true })
+  · intro h
+    simp only at h
+    subst h
+    unfold Gen.delayContinueArm
+    simp only [onReq, interpArm, List.foldl]
+    simp only [guardDelay, applyDelay]
+    cases dsp <;> simp (config := { decide := true })
+  · unfold Gen.delayGetInfoArm
+    simp only [onReq, interpArm, List.foldl]
+    simp only [guardDelay, applyDelay]
+    simp (config := { decide := true })
 
 end NextestModel.C12
